@@ -1,20 +1,83 @@
-"""CLI: ./check <id> [--tier quick|thorough] [--replay path]"""
+"""CLI: ./check <id> [--tier quick|thorough] [--replay path] [--variant name]"""
+import concurrent.futures
+import glob
 import importlib
 import json
 import os
+import re
+import shutil
+import subprocess
 import sys
+import tempfile
 import traceback
 
 from . import ir, engine
 
+VARIANTS = {
+    'abi2': ['-DOPENTELEMETRY_ABI_VERSION_NO=2'],
+    'thread-instrumentation': ['-DENABLE_THREAD_INSTRUMENTATION_PREVIEW'],
+    'exemplars': ['-DENABLE_METRICS_EXEMPLAR_PREVIEW'],
+    'stl': ['-DOPENTELEMETRY_STL_VERSION=2017'],
+}
+
+
+def _selftest_one(pid, patch, benign):
+    """apply one corpus patch to a scratch copy and run the quick check on it"""
+    name = os.path.basename(patch)
+    m = re.match(r'(c\d+)_(r\d+[a-z]?)?', name)
+    rule = (pid + '.' + m.group(2).upper()) if (m and m.group(2) and not benign) else None
+    s = tempfile.mkdtemp(prefix='otel-scratch.')
+    try:
+        subprocess.check_call('cd %s && tar cf - --exclude=third_party api sdk exporters ext | tar xf - -C %s' % (ir.REPO, s), shell=True)
+        p = subprocess.run(['patch', '-p1', '-s', '--no-backup-if-mismatch', '-i', patch], cwd=s, capture_output=True, text=True)
+        if p.returncode != 0:
+            return name, None, 'patch no longer applies to the current tree (skipped)'
+        os.makedirs(os.path.join(s, '.evidence'))
+        env = dict(os.environ, OTEL_REPO=s, VERIF_EVIDENCE_DIR=os.path.join(s, '.evidence'), VERIF_TIER='quick')
+        r = subprocess.run([os.path.join(ir.VERIF, 'check'), pid, '--tier', 'quick'], env=env, capture_output=True, text=True)
+        if benign:
+            return name, r.returncode == 0, 'benign variant: exit %d' % r.returncode
+        hit = [l for l in r.stdout.splitlines() if l.strip().startswith('violation:') and (rule is None or ('rule=' + rule + ' ') in l)]
+        return name, (r.returncode == 1 and bool(hit)), 'exit %d, %d report(s) of %s' % (r.returncode, len(hit), rule)
+    finally:
+        shutil.rmtree(s, ignore_errors=True)
+
+
+def run_selftests(pid):
+    jobs = [(p, False) for p in sorted(glob.glob(os.path.join(ir.VERIF, 'selftest', 'mutants', pid.lower() + '_*.patch')))]
+    jobs += [(p, True) for p in sorted(glob.glob(os.path.join(ir.VERIF, 'selftest', 'benign', pid.lower() + '_*.patch')))]
+    res = []
+    with concurrent.futures.ThreadPoolExecutor(max_workers=6) as ex:
+        for name, ok, msg in ex.map(lambda j: _selftest_one(pid, j[0], j[1]), jobs):
+            res.append({'patch': name, 'ok': ok, 'detail': msg})
+    return res
+
+
+def run_variants(pid):
+    out = []
+    for vname in VARIANTS:
+        d = tempfile.mkdtemp(prefix='otel-variant.')
+        try:
+            env = dict(os.environ, VERIF_EVIDENCE_DIR=d, VERIF_TIER='quick')
+            r = subprocess.run([os.path.join(ir.VERIF, 'check'), pid, '--tier', 'quick', '--variant', vname], env=env, capture_output=True, text=True)
+            viol = [l.strip() for l in r.stdout.splitlines() if l.strip().startswith('violation:')]
+            broken = [l.strip() for l in r.stdout.splitlines() if l.startswith('ANALYSIS-BROKEN') or l.startswith('ANALYSIS-INCOMPLETE')]
+            last = r.stdout.strip().splitlines()[-1] if r.stdout.strip() else ''
+            out.append({'variant': vname, 'flags': VARIANTS[vname], 'exit': r.returncode, 'summary': last,
+                        'observations': viol[:10], 'not_analysable': broken[:5]})
+        finally:
+            shutil.rmtree(d, ignore_errors=True)
+    return out
+
 
 def main(argv):
     if not argv:
-        print('usage: check <property id> [--tier quick|thorough] [--replay path]')
+        print('usage: check <property id> [--tier quick|thorough] [--replay path] [--variant name]')
         return 2
     pid = argv[0].upper()
     tier = os.environ.get('VERIF_TIER') or 'quick'
     replay = None
+    variant = None
     i = 1
     while i < len(argv):
         if argv[i] == '--tier':
@@ -22,6 +85,9 @@ def main(argv):
             i += 2
         elif argv[i] == '--replay':
             replay = argv[i + 1]
+            i += 2
+        elif argv[i] == '--variant':
+            variant = argv[i + 1]
             i += 2
         else:
             i += 1
@@ -41,10 +107,33 @@ def main(argv):
         units += [os.path.join(ir.VERIF, 'tu', u) for u in getattr(mod, 'DRIVERS', [])]
         units += [os.path.join(ir.VERIF, 'canaries', u) for u in getattr(mod, 'CANARIES', [])]
         if tier == 'thorough' and getattr(mod, 'THOROUGH_ALL_UNITS', True):
+            # the whole build: every library unit of the compile database takes part in call-graph / call-site rules
             units += ir.build_units()
-        prog = ir.load_program(units)
+        prog = ir.load_program(units, variant=tuple(VARIANTS[variant]) if variant else ())
         extra = mod.run(ck, prog) or {}
+        if variant:
+            extra['variant'] = variant
+        broken_self = []
+        if tier == 'thorough' and not variant and not os.environ.get('OTEL_REPO'):
+            st = run_selftests(pid)
+            extra['selftest_corpus'] = st
+            extra['selftests_run'] = len(st)
+            extra['selftests_passed'] = sum(1 for x in st if x['ok'])
+            for x in st:
+                if x['ok'] is False:
+                    broken_self.append('self-test %s failed: %s' % (x['patch'], x['detail']))
+            vs = run_variants(pid)
+            extra['preprocessor_variants'] = vs
+            for v in vs:
+                for o in v['observations']:
+                    ck.note('VARIANT-OBSERVATION [%s] %s' % (v['variant'], o[:300]))
+                print('  variant %-24s %s' % (v['variant'], v['summary'] or ('exit %d' % v['exit'])))
+            print('  self-test corpus: %d/%d patches behave as expected' % (extra['selftests_passed'], extra['selftests_run']))
         rc = engine.finish(ck, prog, mod.EXPLANATION, mod.NOT_DECIDED, extra)
+        if broken_self and rc == 0:
+            for b in broken_self:
+                print('ANALYSIS-BROKEN ' + b)
+            rc = 2
         if replay:
             try:
                 with open(replay) as fh:
